@@ -51,18 +51,36 @@ def raise_for_loop_limit(c):
     c.replay("code", code=REPLAY)
 
 
-def _with_contract(meth, mk_args):
-    @contract(CTX + "." + meth, prop="C06")
+def _with_contract(meth, mk_args, prop="C06", body_raises=False):
+    @contract(CTX + "." + meth, prop=prop, name=(f"{meth}[the block raises: the loop stack and the measure are restored]" if body_raises else None))
     def cm(c):
         env = mk_env(c)
         ctx = mk_ctx(c, env)
         args, length = mk_args(c)
         Lm, limited = limit_of(c, env)
         m0 = M(c.st, ctx)
+        loops0 = list(c.st.deref(c.st.deref(ctx).fields["loops"]).items or []) if c.st.deref(c.st.deref(ctx).fields["loops"]).items is not None else None
+
         def entry(eng, cc, func):
             cms = eng.call_function(cc.st, func, args, {}, self_val=ctx)
-            return run_with(eng, cc.st, cms)
+            return run_with(eng, cc.st, cms, body_src="__probe__()\nraise LiquidError('error inside the block')") if body_raises else run_with(eng, cc.st, cms)
         c.entry = entry
+        if body_raises:
+            # a render error inside the block (suppressed later in lax/warn mode): nothing of the loop stays behind
+            c.std_exceptions = True
+            c.raises("LoopIterationLimitError", "ContextDepthError", "LiquidError")
+            c.ensures("a-raising-block-never-completes-normally", lambda r: z3.BoolVal(False))
+            c.ensures_exc("measure-restored-when-the-block-raises", lambda r: M(r.st, ctx) == m0)
+
+            def stack_restored(r):
+                lp = r.st.deref(r.st.deref(ctx).fields["loops"])
+                h0 = c.st.deref(c.st.deref(ctx).fields["loops"])
+                if lp.items is not None and h0.items is not None:
+                    return z3.BoolVal(list(lp.items) == list(h0.items))
+                return z3.BoolVal(lp.items is None and h0.items is None and len(lp.tail) == len(h0.tail))
+            c.ensures_exc("loop-stack-restored-when-the-block-raises", stack_restored)
+            c.replay("code", code=REPLAY_RAISING_BLOCK)
+            return
         def inside(r):
             probes = r.st.ghost.get("probes", [])
             if len(probes) != 1:
@@ -90,6 +108,19 @@ def _iter_args(c):
 
 _with_contract("loop", _loop_args)
 _with_contract("iterations", _iter_args)
+_with_contract("loop", _loop_args, body_raises=True)
+_with_contract("iterations", _iter_args, body_raises=True)
+
+REPLAY_RAISING_BLOCK = r'''
+def run(m):
+    import asyncio
+    from liquid import Environment, Mode, DictLoader
+    env = Environment(tolerance=Mode.LAX, loader=DictLoader({"p": "{% for i in (1..2) %}{{ i | plus: 'x' | nosuchfilter }}{% render 'nosuch' %}{% endfor %}"}))
+    t = env.from_string("{% include 'p' %}{% for j in (1..2) %}[{{ forloop.parentloop.index }}{{ forloop.index }}/{{ forloop.length }}]{% endfor %}")
+    out = [t.render(), asyncio.run(t.render_async())]
+    return {"violated": out != ["[1/2][2/2]"] * 2, "observed": out, "witness": "loop-left-on-the-stack-by-a-raising-block"}
+'''
+
 
 
 @contract(CTX + ".copy", prop="C06", name="copy[carry_loop_iterations]")
